@@ -110,10 +110,16 @@ def build(cfg, seed):
         occs[: min(2, norb)] = 1.0
         occs[norb: norb + 1] = 1.0
         en = np.concatenate([np.sort([round(rng.uniform(-3, 2), 6) for _ in range(norb)]), np.sort([round(rng.uniform(-3, 2), 6) for _ in range(norb)])])
+        nbeta = norb
+        if norb >= 2 and seed % 2:
+            # fewer beta than alpha orbitals are stored (programs print only part of the virtual space)
+            nbeta = norb - 1
+            cb, occs, en = cb[:, :nbeta], np.delete(occs, 2 * norb - 1), np.delete(en, 2 * norb - 1)
         cab = np.concatenate([ca, cb], axis=1)
         if seed % 3 == 1:
             cab = np.asfortranarray(cab)                 # the memory layout of the coefficient matrix is the caller's business
-        mo = MolecularOrbitals("unrestricted", norb, norb, occs, cab, en)
+        irreps = np.array([f"a{j + 1}" for j in range(norb)] + [f"b{j + 1}" for j in range(nbeta)])
+        mo = MolecularOrbitals("unrestricted", norb, nbeta, occs, cab, en, irreps)
     else:
         c = orthonormal_orbitals(rng, obasis, atcoords, norb)
         occs = np.zeros(norb)
@@ -139,7 +145,7 @@ def build(cfg, seed):
             big = np.zeros((2 * c.shape[0], 2 * c.shape[1]))
             big[::2, ::2] = c
             c = big[::2, ::2]                            # a strided view
-        mo = MolecularOrbitals("restricted", norb, norb, occs, c, en, None, amb)
+        mo = MolecularOrbitals("restricted", norb, norb, occs, c, en, np.array([f"r{j + 1}" for j in range(norb)]), amb)
     kw = dict(atnums=atnums, atcoords=atcoords, atcorenums=atcorenums, obasis=obasis, mo=mo, energy=-3.25 * natom, title="c01 wavefunction",
               lot="RHF", obasis_name="custom")
     if cfg.get("rdms") and kind != "generalized":
@@ -213,7 +219,8 @@ def spin_orbitals(chs):
 
 def compare(src, back, fmt):
     """Compare source and loaded wavefunction as sets of spin orbitals (occupied ones must all be present)."""
-    res = {"nuclei_same": True, "orbitals_same": True, "occs_same": True, "energies_same": True, "spin_same": True, "density_same": True}
+    res = {"nuclei_same": True, "orbitals_same": True, "occs_same": True, "energies_same": True, "spin_same": True, "density_same": True,
+           "irreps_same": True}
     if not (np.array_equal(src.atnums, back.atnums) and np.allclose(src.atcoords, back.atcoords, atol=2e-5)
             and np.allclose(src.atcorenums, back.atcorenums, atol=1e-5)):
         res["nuclei_same"] = False
@@ -245,6 +252,11 @@ def compare(src, back, fmt):
             res["occs_same"] = False
         if abs(Bk[k][2] - en) > 2e-5 * max(1.0, abs(en)):
             res["energies_same"] = False
+    # symmetry labels stay with their orbitals (Molden and Molekel store them; the orbital order of these files is the source's)
+    if fmt in ("molden", "molekel") and src.mo.irreps is not None and src.mo.kind == back.mo.kind:
+        got = None if back.mo.irreps is None else [str(x) for x in back.mo.irreps]
+        if got != [str(x) for x in src.mo.irreps]:
+            res["irreps_same"] = False
     # no occupied spin orbital may appear from nowhere
     for k, (sp2, o2, *_r) in enumerate(Bk):
         if k not in used and o2 != 0.0:
@@ -529,7 +541,7 @@ def run_config(task):
     ev = {"op": "Dump", "cfg": {k: (v if k != "shells" else [[c, [list(t) for t in cons]] for c, cons in v]) for k, v in cfg.items()},
           "seed": seed, "allow": allow, "cli": via_cli, "out": "written", "readable": True, "warned": False, "converted": False,
           "nuclei_same": True, "orbitals_same": True, "occs_same": True, "energies_same": True, "spin_same": True, "density_same": True,
-          "independent_same": True, "msg": ""}
+          "irreps_same": True, "independent_same": True, "msg": ""}
     tmp = tempfile.mkdtemp(prefix="c01_")
     global PROBE
     PROBE = PROBE0 + (2100.0 if cfg.get("big") else 0.0)
@@ -791,7 +803,7 @@ def plan(run, rng):
 
 def describe(e):
     cfg = e["cfg"]
-    flags = [k for k in ("nuclei_same", "orbitals_same", "occs_same", "energies_same", "spin_same", "density_same", "independent_same") if not e[k]]
+    flags = [k for k in ("nuclei_same", "orbitals_same", "occs_same", "energies_same", "spin_same", "density_same", "irreps_same", "independent_same") if not e[k]]
     gen = any(len(cons) > 1 for _c, cons in cfg["shells"])
     centers = [c for c, _ in cfg["shells"]]
     sorted_ = centers == sorted(centers)
